@@ -148,13 +148,16 @@ NOTES = ("All checks: bin/check <ID> <quick|thorough>; VERIF_SEED selects the ra
          "Known findings: KNOWN_FINDINGS.txt; regression replays: replays/regress/<ID>/; sensitivity: seeded/ and mutants/.")
 
 _STATIC_NOTE = ("trusted: std::lower_bound over the generated array as oracle; generator domain = DESIGN.md section 3 "
-                "(float keys on an exactly representable lattice m*2^e, e in [-40,40]; double-key duplicate runs capped at 1024 = KF-1); "
-                "n <= 2*10^5; configurations = 14 (Epsilon,EpsilonRecursive,Floating) x 10 key types compiled matrix")
-_SEG_NOTE = ("trusted: 128-bit integer arithmetic of the oracle; ranks < 2^40; sessions with a segment longer than 3000 points or beyond the "
-             "6*10^7 pair-operation budget are counted as unchecked_large, not judged; relies on the PGM_INDEX_VERIF SegSession hook and Access friend")
+                "(float keys on an exactly representable lattice m*2^e, e in [-40,40]); n <= 2*10^5 ordinarily, rare classes up to 2^23 distinct keys and 2^24+2^22 keys "
+                "with <= 300 distinct values; ranges handed over as vector / deque / pointer iterators; 1 case in 6 keeps a second index of the same instantiation alive; "
+                "configurations = 14 (Epsilon,EpsilonRecursive,Floating) x 10 key types compiled matrix")
+_SEG_NOTE = ("trusted: 128-bit integer arithmetic of the oracle; ranks < 2^40; C04 evaluates the pairwise feasibility criterion over two convex hulls (O(log k) per point, any "
+             "segment length) and cross-checks it against the literal quadratic evaluation while a 6*10^7 pair-operation budget per case lasts; relies on the "
+             "PGM_INDEX_VERIF SegSession hook and Access friend; C03 has one extra process per tier feeding 2^32+ points to one builder through the functor interface")
 _VAR_NOTE = ("trusted: std::lower_bound over the generated array; unsigned keys on the full width of the type, n <= 2*10^5, 1..20 threads")
 _DYN_NOTE = ("trusted: std::map as reference model; keys strictly below numeric max, values never the tombstone; base^(buffer_level+1) <= 2^21 "
-             "(the library reserves that many entries eagerly); universes <= 6000 keys, histories <= 420 ops (runs up to 5000 updates)")
+             "(the library reserves that many entries eagerly); universes <= 6000 keys, histories <= 420 ops (runs up to 5000 updates), plus deep histories of 2^16..2^19 single "
+             "inserts; range(lo, hi) is open-ended (hi = numeric max) in 1 case of 12; find / lower_bound are never asked for the reserved key itself")
 DESCR = {
     "C03": {"level": "generated-input search: every constraint point the builder committed to (captured by the hook) is located in exactly one emitted segment "
                      "and its residual against the reported line is checked exactly (integers) or in long double with a stated tolerance (floats)",
@@ -174,7 +177,7 @@ DESCR = {
             "technique": "property-based testing (rapidcheck choice tapes) vs std::lower_bound oracle"},
     "C08": {"level": "generated-input search over unsigned key arrays x 12 CompressedPGMIndex configurations (EpsilonRecursive 0, small, T, T+1, 256): every derived "
                      "query judged against std::lower_bound (range inside [0,n], width, lower bound inside, present key strictly inside)",
-            "design_ref": "DESIGN.md section 6 C08-C10", "note": _VAR_NOTE + "; arrays whose keys exceed max-16 are moved down (KF-2, counted)",
+            "design_ref": "DESIGN.md section 6 C08-C10", "note": _VAR_NOTE + "; 3 (quick) / 6 (thorough) extra shards run a build without -march=native (generic branches of the vendored sdsl); segment counts steered to 64 / 4096 / 2^k +- 3",
             "technique": "property-based testing (rapidcheck choice tapes) vs std::lower_bound oracle"},
     "C09": {"level": "generated-input search over unsigned key arrays x 8..12 BucketingPGMIndex configurations (power-of-two and other table sizes, dynamic and fixed "
                      "cell widths); O-range, empty ranges outside [first,last], and the routed segment equals the globally rightmost segment <= key",
@@ -182,15 +185,15 @@ DESCR = {
             "technique": "property-based testing vs std::lower_bound oracle + recomputed responsible segment through a test subclass"},
     "C10": {"level": "generated-input search over 16..64-bit key arrays x 6 EliasFanoPGMIndex configurations with varying segment-key density (low-bit width histogram "
                      "in the evidence); O-range on every derived query incl. below the first key and beyond the last segment key",
-            "design_ref": "DESIGN.md section 6 C08-C10", "note": _VAR_NOTE + "; 64-bit arrays with first key 0 and last key max-1 have their first key moved to 1 (KF-3, counted)",
+            "design_ref": "DESIGN.md section 6 C08-C10", "note": _VAR_NOTE + "; portable-build shards as for C08; segment counts and the size of the Elias-Fano high bit vector steered to block boundaries (histogram in the evidence)",
             "technique": "property-based testing (rapidcheck choice tapes) vs std::lower_bound oracle"},
     "C11": {"level": "generated-input search over duplicate-heavy signed/unsigned arrays stored in a MappedPGMIndex (range-built and raw-file-built): lower_bound, "
                      "upper_bound, count, contains, begin/end/size compared with the std algorithms for every derived query",
-            "design_ref": "DESIGN.md section 6 C11", "note": "trusted: std algorithms on the in-memory copy; files live in /verif/work/<check>/sNN; n <= 60000; the harness closes the file descriptors the library leaks",
+            "design_ref": "DESIGN.md section 6 C11", "note": "trusted: std algorithms on the in-memory copy; files live in /verif/work/<check>/s_<shard>; n <= 2^20; the harness closes the file descriptors the library leaks and maps files with an inaccessible page behind them (its own mmap/munmap); ranges given as vector / pointer / deque / reverse iterators; stale longer files planted at output paths",
             "technique": "property-based testing vs std::lower_bound/upper_bound/count/binary_search"},
     "C12": {"level": "generated-input search over data x generated scripts of {create from range, create from raw file, reopen A, reopen B, reopen again}: byte equality "
                      "of the two written files, file unchanged by every reopen, every instance answers all queries like the std algorithms",
-            "design_ref": "DESIGN.md section 6 C12", "note": "trusted: byte comparison of the files read back with ifstream; std algorithms; n <= 60000",
+            "design_ref": "DESIGN.md section 6 C12", "note": "trusted: byte comparison of the files read back with ifstream; std algorithms; n <= 2^20; same file and iterator variations as C11",
             "technique": "property-based testing over operation scripts; round-trip / differential oracle"},
     "C13": {"level": "generated-input search over point multisets and boxes; the complete iterated sequence of range(min,max) is compared element-wise with the "
                      "stored points inside the box ordered by an independent Morton encoder (multiplicity, order, termination)",
